@@ -159,6 +159,9 @@ func propC15(c *Ctx, r *Report) {
 	r.Clauses = append(r.Clauses, indexLenClause)
 	c.runIndexLen(r, "shape.indexlen", inPkgs("msl", "hlsl", "glsl", "spirv"))
 	r.floor("shape.indexlen", 5)
+	r.Clauses = append(r.Clauses, kindLimitClause+" - the constants the backends print for INT_MIN and the conversion clamps")
+	c.runKindLimits(r, "range.kindlimit", inPkgs("msl", "glsl", "hlsl", "spirv", "wgsl"))
+	r.floor("range.kindlimit", 10)
 	r.Clauses = append(r.Clauses, guardAgreeClause+" - the workgroup zero-initialisation prologue is keyed on the recorded local_invocation_id")
 	c.runGuardAgree(r, "guard.agree", inPkgs("msl", "hlsl", "glsl", "spirv"))
 	r.floor("guard.agree", 4)
